@@ -271,6 +271,20 @@ def check(ctx):
         else:
             multi = False
         ok8 = isinstance(src, ast.ListComp) and norm(src.generators[0].iter) in (tparam, f"{tparam}.items()", f"{tparam}.keys()") and not multi
+        if not ok8 and isinstance(arg, ast.Name) and isinstance(src, ast.List) and not src.elts and not multi:
+            # explicit loop: the list starts empty and is only appended to inside `for ... in types`
+            apps = [c for c in ast.walk(m_.node) if isinstance(c, ast.Call) and norm(c.func) == f"{arg.id}.append"]
+            par8 = {c_: p_ for p_ in ast.walk(m_.node) for c_ in ast.iter_child_nodes(p_)}
+
+            def in_types_loop(n):
+                p_ = par8.get(n)
+                while p_ is not None:
+                    if isinstance(p_, ast.For) and norm(p_.iter) in (tparam, f"{tparam}.items()", f"{tparam}.keys()"):
+                        return True
+                    p_ = par8.get(p_)
+                return False
+            others = [c for c in ast.walk(m_.node) if isinstance(c, ast.Call) and isinstance(c.func, ast.Attribute) and norm(c.func.value) == arg.id and c.func.attr in ("extend", "insert", "sort", "reverse")]
+            ok8 = bool(apps) and all(in_types_loop(c) for c in apps) and not others
         ctx.check(ok8, "C16.R8", f"{m_.qualname}:order", None,
                   f"the fields are listed by `{short(src, 60)}`" + (" (then rebuilt)" if multi else "") + f", not by iterating over `{tparam}`: regular fields come first and init variables after them, whatever their place in the class - the deserialization schema, the GraphQL input type and object_fields() show another order than the declared one, and elements attached with order(after=<init var>) move with it",
                   m_, calls8[0], detail=f"[... for name in {tparam} ...]")
@@ -345,6 +359,7 @@ def check(ctx):
 
 
 def mutants(mb):
+    mb.add_text("neg-dataclass-fields-loop", "apischema/objects/visitor.py", "        object_fields = [\n            by_name[name]\n            for name in types\n            if name in by_name and by_name[name].kind != self._field_kind_filtered\n        ]\n", "        object_fields = []\n        for name in types:\n            if name in by_name and by_name[name].kind != self._field_kind_filtered:\n                object_fields.append(by_name[name])\n", negative=True)
     mb.add_text("dataclass-fields-by-group", "apischema/objects/visitor.py", "        object_fields = [\n            by_name[name]\n            for name in types\n            if name in by_name and by_name[name].kind != self._field_kind_filtered\n        ]\n", "        object_fields = [f for f in by_name.values() if f.kind != self._field_kind_filtered]\n", "C16.R8", "dataclass")
     mb.add_text("dataclass-passthrough-ignores-order", "apischema/serialization/__init__.py", "            and all(f is f2.field for f, f2 in zip(base_fields, fields_to_order))\n", "            and all(f2.field for f, f2 in zip(base_fields, fields_to_order))\n", "C16.R7", "declaration-order")
     mb.add_text("resolver-serialized-order-dropped", "apischema/graphql/resolvers.py", "                    order=order,\n                    owner=owner,\n                )(func)", "                    owner=owner,\n                )(func)", "C16.R6", "order")
